@@ -9,9 +9,18 @@ using namespace ccl; using namespace ccl::semantic;
 using ccl::object::StructuredData;
 struct Snap { bool has; StructuredData v; };
 static Snap snap(RSModel& m, EntityUID d) { auto o = m.Values().SDataFor(d); Snap s{ o.has_value(), o.has_value() ? o.value() : StructuredData{} }; return s; }
-int main(int argc, char** argv) {
-  if (argc < 2) return 2;
-  std::string g = argv[1];
+static int g_stale = 0;
+// generic stale check: constituents in `watch` that show a value now must show the same value after RecalculateAll
+static void check_stale(RSModel& m, const std::vector<EntityUID>& watch, const char* what) {
+  std::vector<Snap> before; for (auto d : watch) before.push_back(snap(m, d));
+  m.Calculations().RecalculateAll();
+  for (size_t i = 0; i < watch.size(); ++i) {
+    Snap after = snap(m, watch[i]);
+    if (before[i].has) EXPECT(after.has && before[i].v == after.v, "%s: constituent #%zu kept a calculated value after the change that recalculation does not reproduce (stale)", what, (size_t)watch[i]);
+  }
+}
+// scenario 1: chain of terms X1 -> D1 -> D2
+static int scenario_terms(const std::string& g) {
   RSModel m;
   const auto x1 = m.Emplace(CstType::base), x2 = m.Emplace(CstType::base);
   const auto d1 = m.Emplace(CstType::term, "X1");
@@ -26,13 +35,31 @@ int main(int argc, char** argv) {
   else if (g == "pr_setbasictext") { TextInterpretation t{}; t.SetInterpretantFor(5, "p"); t.SetInterpretantFor(7, "q"); m.Values().SetBasicText(x1, t); }
   else if (g == "pr_addbasic") { m.Values().AddBasicElement(x1, "z"); }
   else if (g == "pr_resetdata") { m.Values().ResetDataFor(x1); }
-  else if (g == "pr_resetdependants") { return 1; }
   else return 2;
-  std::vector<Snap> before; for (auto d : watch) before.push_back(snap(m, d));
+  check_stale(m, watch, "terms");
+  return 0;
+}
+// scenario 2: a term-function between the data and the terms: X1 -> F1 -> D1 -> D2 (functions are never "calculated" themselves)
+static int scenario_function(const std::string& g) {
+  RSModel m;
+  const auto x1 = m.Emplace(CstType::base);
+  const auto f1 = m.Emplace(CstType::function, "[a\xE2\x88\x88\xE2\x84\xAC(X1)] a\\X1");
+  const auto d1 = m.Emplace(CstType::term, "F1[X1]");
+  const auto d2 = m.Emplace(CstType::term, "D1\xE2\x88\xAA" "D1");
+  m.Values().SetBasicText(x1, TextInterpretation{ { "a", "b", "c" } });
   m.Calculations().RecalculateAll();
-  for (size_t i = 0; i < watch.size(); ++i) {
-    Snap after = snap(m, watch[i]);
-    if (before[i].has) EXPECT(after.has && before[i].v == after.v, "constituent #%zu kept a calculated value after the change that recalculation does not reproduce (stale)", (size_t)watch[i]);
-  }
+  if (!m.Values().SDataFor(d1).has_value()) return 2;
+  if (g == "pr_setexpr") m.SetExpressionFor(f1, "[a\xE2\x88\x88\xE2\x84\xAC(X1)] a\xE2\x88\xAAX1");
+  else if (g == "pr_erase") m.Erase(f1);
+  else return 2;
+  check_stale(m, { d1, d2 }, "function");
+  return 0;
+}
+int main(int argc, char** argv) {
+  if (argc < 2) return 2;
+  std::string g = argv[1];
+  if (g == "pr_resetdependants") return 1;
+  int a = scenario_terms(g); int b = scenario_function(g);
+  if (a == 2 && b == 2) return 2;
   return verdict();
 }
